@@ -1,6 +1,8 @@
 package e2eb
 
 import (
+	"crypto/rand"
+	"crypto/rsa"
 	"net"
 	"sync"
 	"time"
@@ -9,6 +11,8 @@ import (
 	"go.minekube.com/gate/pkg/edition/java/config"
 	"go.minekube.com/gate/pkg/edition/java/proxy"
 	"go.minekube.com/gate/pkg/util/configutil"
+
+	"verifharness/e2e"
 )
 
 // ProxyOpts configures the proxy under test.
@@ -18,6 +22,7 @@ type ProxyOpts struct {
 	ConnectionTimeoutMs int      // effective backend connect/login (and write) timeout; 0: gate's default
 	ReadTimeoutMs       int      // effective read timeout; 0: gate's default
 	NoFailover          bool     // FailoverOnUnexpectedServerDisconnect = false
+	Online              bool     // online mode: real RSA/AES login against a scripted session server (e2e.NewAuth)
 	Events              event.Manager
 }
 
@@ -68,7 +73,20 @@ func StartProxy(o ProxyOpts) (*Proxy, error) {
 	if ev == nil {
 		ev = event.New()
 	}
-	p, err := proxy.New(proxy.Options{Config: &cfg, EventMgr: ev})
+	opts := proxy.Options{Config: &cfg, EventMgr: ev}
+	if o.Online {
+		cfg.OnlineMode = true
+		key, err := rsa.GenerateKey(rand.Reader, 1024)
+		if err != nil {
+			return nil, err
+		}
+		a, err := e2e.NewAuth(key, e2e.OutProfile)
+		if err != nil {
+			return nil, err
+		}
+		opts.Authenticator = a
+	}
+	p, err := proxy.New(opts)
 	if err != nil {
 		return nil, err
 	}
